@@ -124,6 +124,15 @@ def fudgeUpdate (fudge : Int) (len : Nat) : Int × Bool :=
   let f := fudge - len
   if f < 0 then (f + 16384, true) else (f, false)
 
+/-- h2_send_window_update_unit() run over a sequence of received DATA frame lengths (as
+    recvData does for the connection and for a stream whose body is being read); returns the
+    final fudge and the total credit returned in WINDOW_UPDATE frames -/
+def creditRun : Int → List Nat → Int × Nat
+  | f, [] => (f, 0)
+  | f, len :: rest =>
+    let r := creditRun (fudgeUpdate f len).1 rest
+    (r.1, r.2 + (if (fudgeUpdate f len).2 then 16384 else 0))
+
 /-- h2_discard_headers() -/
 def discardHeaders (c : H2Conn) : Res :=
   if c.goaway > 0 then (c, []) else
